@@ -35,6 +35,7 @@ void World::exec(const Step &s)
     else if (op == "mkmt")      opMkMinterm(s);
     else if (op == "mkcollmax") opMkColl(s, true);
     else if (op == "mkcollmin") opMkColl(s, false);
+    else if (op == "mkgraph")   opMkGraph(s);
     else if (op == "bin")       opBinary(s);
     else if (op == "compl")     opComplement(s);
     else if (op == "copy")      opCopy(s);
